@@ -157,6 +157,9 @@ func Sat(label string, cond bool) {}
 // a directive (vf.CutLoop) and whose native twin has to reach the same state by other means.
 func Native() bool { return true }
 
+// Bound states a bound of the harness itself (not of the property): the engine reports a violable bound as inconclusive.
+func Bound(label string, cond bool) {}
+
 func Assume(b bool) {
 	if !b {
 		panic("vf.Assume violated natively: model does not satisfy harness assumption")
